@@ -82,4 +82,26 @@ let () =
              | 4 -> np_broadcast_ok tr t
              | _ -> true)) in
       r (np ok) (np ok) (posb s && dst <> [])
-    | _ -> failwith "pipe")
+    | _ -> failwith "pipe");
+  (* two possibly-empty stage results (reshapes of the same array) as both operands of a binary view *)
+  register "pipe2" (fun a -> match a with [x; k; da; db] ->
+      let s = shape_of x and da = getL da and db = getL db and k = int_of_z (getI k) in
+      let ok = (match Views.np_reshape_shape s da, Views.np_reshape_shape s db with
+        | Some sa, Some sb ->
+            (match k with
+             | 0 | 1 | 5 -> np_matmul_ok sa sb && List.length sa >= 2 && List.length sb >= 2
+             | 2 -> np_concat_ok sa sb Z0
+             | 3 -> np_broadcast_ok sb sa
+             | 4 -> List.length sa >= 2 && List.length sb >= 2 && np_matmul_ok (List.rev sb) (List.rev sa)
+             | _ -> true)
+        | _, _ -> false) in
+      (* matmul with a 1-d operand (0-d / promoted results) is C16's matmul_1d_operand finding, outside this check *)
+      let one_d = (match Views.np_reshape_shape s da, Views.np_reshape_shape s db with
+        | Some sa, Some sb -> (k = 0 || k = 1 || k = 4 || k = 5) && (List.length sa < 2 || List.length sb < 2)
+        | _, _ -> false) in
+      (* both stage results present but the outer view's own arguments invalid: that is the missing validation of matmul /
+         concatenate judged by the "matmul" / "concat" cases; here only the propagation of an EMPTY stage result is judged *)
+      let both_present_invalid = (match Views.np_reshape_shape s da, Views.np_reshape_shape s db with
+        | Some _, Some _ -> not ok | _, _ -> false) in
+      if one_d || both_present_invalid then r "unspecified" "unspecified" false else r (np ok) (np ok) false
+    | _ -> failwith "pipe2")
